@@ -1,59 +1,63 @@
-(* Concrete witnesses for the C09 findings and the statement they refute. *)
+(* Concrete runs for C09: the fault placements that broke convergence before the repairs of retry.go
+   (findings C09-F1 and C09-F2, fixed) and a multi-fault run; under the repaired retry loop they converge. *)
 From KB Require Import Base.Cases Model.RetrySys Model.C09Cases
   Proofs.RetryBase Proofs.RetryInv1 Proofs.RetryInv2 Proofs.RetryProps Proofs.RetryInv3 Proofs.RetryInvX.
 Local Open Scope N_scope.
 
-Definition C09_converges_statement : Prop :=
-  forall r0 ls, Forall wf_label ls -> let s := run (init_state r0) ls in
-  quiescentb s = true -> forall R0 k, R0 <= s_committed s -> converged_at s R0 k.
-
 Definition v1 : value := [118; 49].
 Definition v2 : value := [118; 50].
-(* F1: Update lands, answered "unknown"; the repair write is answered "unknown" without being applied *)
-Definition F1_witness : list label :=
+
+(* former F1: Update lands, answered "unknown"; the repair write is answered "unknown" without being applied.
+   The node stays at the head, the next iteration rewrites the write, the event queued for the failed attempt is
+   dropped as unnecessary. *)
+Definition F1_scenario : list label :=
   [LInvoke 0 (OCreate 0 v1); LThread 0 EnvOk; LThread 0 EnvOk; LThread 0 EnvOk; LThread 0 EnvOk; LSeq;
    LInvoke 1 (OUpdate 0 v2 11); LThread 1 EnvOk; LThread 1 (EnvUnknown true false); LThread 1 EnvOk; LThread 1 EnvOk;
    LSeq; LSeq; LSeq;
    LTick 40;
-   LRetry EnvOk; LRetry EnvOk; LRetry EnvOk; LRetry (EnvUnknown false false); LRetry EnvOk; LRetry EnvOk;
+   LRetry EnvOk; LRetry EnvOk; LRetry EnvOk; LRetry (EnvUnknown false false); LRetry EnvOk;    (* attempt @13: unknown, not applied; node @12 kept *)
+   LSeq; LSeq; LSeq;                                                                             (* event @13 queued behind it *)
+   LTick 40;
+   LRetry EnvOk; LRetry EnvOk; LRetry EnvOk; LRetry EnvOk; LRetry EnvOk; LRetry EnvOk;          (* node @12 again: rewritten @14 *)
+   LSeq;
+   LRetry EnvOk; LRetry EnvOk; LRetry EnvOk].                                                    (* node @13: key is at 14, dropped *)
+
+(* the same with a definite, non-compare failure of the repair write *)
+Definition F1_scenario_error : list label :=
+  [LInvoke 0 (OCreate 0 v1); LThread 0 EnvOk; LThread 0 EnvOk; LThread 0 EnvOk; LThread 0 EnvOk; LSeq;
+   LInvoke 1 (OUpdate 0 v2 11); LThread 1 EnvOk; LThread 1 (EnvUnknown true false); LThread 1 EnvOk; LThread 1 EnvOk;
    LSeq; LSeq; LSeq;
    LTick 40;
-   LRetry EnvOk; LRetry EnvOk; LRetry EnvOk].
-(* F2: Update with an empty value lands, answered "unknown" *)
-Definition F2_witness : list label :=
+   LRetry EnvOk; LRetry EnvOk; LRetry EnvOk; LRetry EnvError; LRetry EnvOk;
+   LSeq;
+   LRetry EnvOk; LRetry EnvOk; LRetry EnvOk; LRetry EnvOk; LRetry EnvOk; LRetry EnvOk;
+   LSeq].
+
+(* former F2: Update with an empty value lands, answered "unknown" *)
+Definition F2_scenario : list label :=
   [LInvoke 0 (OCreate 0 v1); LThread 0 EnvOk; LThread 0 EnvOk; LThread 0 EnvOk; LThread 0 EnvOk; LSeq;
    LInvoke 1 (OUpdate 0 [] 11); LThread 1 EnvOk; LThread 1 (EnvUnknown true false); LThread 1 EnvOk; LThread 1 EnvOk;
    LSeq; LSeq; LSeq;
    LTick 40;
-   LRetry EnvOk; LRetry EnvOk; LRetry EnvOk].
+   LRetry EnvOk; LRetry EnvOk; LRetry EnvOk; LRetry EnvOk; LRetry EnvOk; LRetry EnvOk;
+   LSeq].
 
-Lemma wf_all_dec ls : forallb (fun l => match l with
-                                        | LInvoke _ op => match op_value op with Some v => negb (is_tomb v) | None => true end
-                                        | LThread _ e | LRetry e => negb (env_ocas e)
-                                        | _ => true end) ls = true -> Forall wf_label ls.
+Lemma fixed_scenarios_ok :
+  (Forall wf_label F1_scenario /\ let s := run (init_state 10) F1_scenario in
+     quiescentb s = true /\ s_committed s = 14 /\ snap s 11 0 = Some (v1, 11) /\ snap s 14 0 = Some (v2, 14) /\
+     map ev_obs (s_events s) = [(VPut, 0, v2, 14, 14); (VCreate, 0, v1, 11, 11)]) /\
+  (Forall wf_label F1_scenario_error /\ let s := run (init_state 10) F1_scenario_error in
+     quiescentb s = true /\ s_committed s = 14 /\ snap s 14 0 = Some (v2, 14) /\
+     map ev_obs (s_events s) = [(VPut, 0, v2, 14, 14); (VCreate, 0, v1, 11, 11)]) /\
+  (Forall wf_label F2_scenario /\ let s := run (init_state 10) F2_scenario in
+     quiescentb s = true /\ s_committed s = 13 /\ snap s 13 0 = Some ([], 13) /\
+     map ev_obs (s_events s) = [(VPut, 0, [], 13, 13); (VCreate, 0, v1, 11, 11)]).
 Proof.
-  induction ls as [|l ls IH]; simpl; intros H; [constructor|]. apply andb_true_iff in H as [H1 H2].
-  constructor; [|apply IH; exact H2]. destruct l; simpl; auto.
-  - unfold op_wf. destruct (op_value op); [apply negb_true_iff in H1; exact H1|exact I].
-  - apply negb_true_iff in H1. exact H1.
-  - apply negb_true_iff in H1. exact H1.
+  repeat split; try (apply wf_labelsb_spec; reflexivity); vm_compute; reflexivity.
 Qed.
 
-Lemma converges_refuted : ~ C09_converges_statement.
-Proof.
-  intros H. specialize (H 10 F1_witness (wf_all_dec F1_witness eq_refl) eq_refl 11 0).
-  assert (L : 11 <= s_committed (run (init_state 10) F1_witness)) by (vm_compute; discriminate).
-  specialize (H L). vm_compute in H. discriminate.
-Qed.
-
-Lemma converges_refuted_empty : exists ls, Forall wf_label ls /\
-  let s := run (init_state 10) ls in quiescentb s = true /\ ~ converged_at s 11 0.
-Proof.
-  exists F2_witness. split; [apply wf_all_dec; reflexivity|]. split; [reflexivity|]. vm_compute. discriminate.
-Qed.
-
-(* a run with faults that satisfies the hypotheses of the convergence theorem: an Update and a Delete land with
-   unknown outcome, a third write does not land, the first repair write is itself answered "unknown" after landing *)
+(* a run with several faults: an Update and a Delete land with unknown outcome, a third write does not land, the first
+   repair write is itself answered "unknown" after landing (its node is kept, then dropped because the key moved on) *)
 Definition repaired_witness : list label :=
   [LInvoke 0 (OCreate 0 v1); LThread 0 EnvOk; LThread 0 EnvOk; LThread 0 EnvOk; LThread 0 EnvOk; LSeq;
    LInvoke 1 (OCreate 1 v1); LThread 1 EnvOk; LThread 1 EnvOk; LThread 1 EnvOk; LThread 1 EnvOk; LSeq;
@@ -62,26 +66,25 @@ Definition repaired_witness : list label :=
    LInvoke 4 (OUpdate 0 v1 11); LThread 4 EnvOk; LThread 4 (EnvUnknown false false); LThread 4 EnvOk; LThread 4 EnvOk;
    LSeq; LSeq; LSeq; LSeq; LSeq; LSeq; LSeq; LSeq; LSeq;
    LTick 40;
-   LRetry EnvOk; LRetry EnvOk; LRetry EnvOk; LRetry (EnvUnknown true false); LRetry EnvOk; LRetry EnvOk;   (* update @13 rewritten @16, unknown *)
-   LRetry EnvOk; LRetry EnvOk; LRetry EnvOk; LRetry EnvOk; LRetry EnvOk; LRetry EnvOk;                       (* delete @14 rewritten @17 *)
-   LRetry EnvOk; LRetry EnvOk; LRetry EnvOk;                                                                 (* @15 never landed: dropped *)
+   LRetry EnvOk; LRetry EnvOk; LRetry EnvOk; LRetry (EnvUnknown true false); LRetry EnvOk;      (* update @13 rewritten @16, unknown: node kept *)
+   LRetry EnvOk; LRetry EnvOk; LRetry EnvOk;                                                     (* node @13 again: key is at 16, dropped *)
+   LRetry EnvOk; LRetry EnvOk; LRetry EnvOk; LRetry EnvOk; LRetry EnvOk; LRetry EnvOk;          (* delete @14 rewritten @17 *)
+   LRetry EnvOk; LRetry EnvOk; LRetry EnvOk;                                                     (* @15 never landed: dropped *)
    LSeq; LSeq; LSeq; LSeq;
    LTick 40;
-   LRetry EnvOk; LRetry EnvOk; LRetry EnvOk; LRetry EnvOk; LRetry EnvOk; LRetry EnvOk;                       (* @16 rewritten @18 *)
+   LRetry EnvOk; LRetry EnvOk; LRetry EnvOk; LRetry EnvOk; LRetry EnvOk; LRetry EnvOk;          (* @16 rewritten @18 *)
    LSeq].
 
 Lemma repaired_witness_ok :
-  labels_ok (init_state 10) repaired_witness /\
+  Forall wf_label repaired_witness /\
   let s := run (init_state 10) repaired_witness in
   quiescentb s = true /\ s_committed s = 18 /\ length (s_events s) = 4%nat /\
   snap s 12 0 = Some (v1, 11) /\ snap s 18 0 = Some (v2, 18) /\ snap s 12 1 = Some (v1, 12) /\ snap s 18 1 = None.
 Proof.
-  split.
-  - apply labels_okb_spec. vm_compute. reflexivity.
-  - vm_compute. repeat split; reflexivity.
+  split; [apply wf_labelsb_spec; reflexivity|]. vm_compute. repeat split; reflexivity.
 Qed.
 
-(* the oracle on observations the model itself produces: clean run -> None, the two findings -> their codes *)
+(* the oracle on observations the model itself produces *)
 Definition self_case (sc : list dstep) : c09_case :=
   {| c_script := sc; c_obs := fst (model_obs {| c_script := sc; c_obs := []; c_events := [] |});
      c_events := snd (model_obs {| c_script := sc; c_obs := []; c_events := [] |}) |}.
@@ -97,6 +100,6 @@ Definition sc_F2 : list dstep :=
   [DWrite (OCreate 0 v1) [] false false; DList; DWrite (OUpdate 0 [] 11) [EnvUnknown true false] false false] ++ drain_script.
 Lemma oracle_on_model :
   (c09_check (self_case sc_clean) = true /\ c09_oracle (self_case sc_clean) = None) /\
-  (c09_check (self_case sc_F1) = true /\ c09_oracle (self_case sc_F1) = Some 1) /\
-  (c09_check (self_case sc_F2) = true /\ c09_oracle (self_case sc_F2) = Some 2).
+  (c09_check (self_case sc_F1) = true /\ c09_oracle (self_case sc_F1) = None) /\
+  (c09_check (self_case sc_F2) = true /\ c09_oracle (self_case sc_F2) = None).
 Proof. vm_compute. repeat split; reflexivity. Qed.
